@@ -1,5 +1,6 @@
 import NomtModel.Store.BitOpsReconstruct
 import NomtModel.Store.BitOpsOrder
+import NomtModel.Store.BitOpsBranchRt
 /-!
 # C16 (topic: bit operations of the B-tree) — `nomt/src/beatree/ops/bit_ops.rs`
 
@@ -224,5 +225,37 @@ bit length is indexed out of bounds (panic) -/
 theorem T16_reconstruct_violations :
     reconstructKey (some (List.replicate 33 0, 264)) [] 0 0 = none ∧
     reconstructKey (some ([0xFF], 12)) [] 0 0 = none := by decide
+
+/-! ## `get_key`: the round trip with how `BranchNodeBuilder` stores prefix and separators -/
+
+/-- **T16.get_key** — on every branch page with a sane layout (`NodeOK`: 4096 bytes, `n ≥ 1`, `i < n`, `prefix_len ≤ 256`,
+cells non-decreasing at `i` and not beyond the last cell, prefix + stored bits ≤ 256, cells + bit vector + node
+pointers fit in the page — all of it checked by `decodeBranch` on real pages) the real read path
+`get_key(node, i)` = `reconstruct_key(raw_prefix, raw_separator(i))` does not panic (the 8-byte aligned raw slices stay
+inside the page, every `bitwise_memcpy` call is inside its contract) and returns the shared prefix bits (for a
+compressed separator) ++ the stored separator bits ++ zeros. -/
+theorem T16_get_key_spec (pg : List Nat) (n pc pl s e last i : Nat) (h : NodeOK pg n pc pl s e last i) :
+    getKey pg i = some (bytesOfBits (storedKeyBit pg n pc pl s e i) 32) :=
+  getKey_spec pg n pc pl s e last i h
+
+/-- **T16.reconstruct_rt** — a page built by the mirror of `BranchNodeBuilder::new` + `push` × n (`encodeBranch`, under the
+guard `branchOK` of `T16_rt_branch`) read back through the mirror of the REAL `get_key` path: every separator comes
+back as **the key that was pushed** — compressed or not, also when the separator is shorter than the prefix. -/
+theorem T16_reconstruct_rt (x : Store.BranchIn) (hok : Store.branchOK x = true) (j : Nat) (it : Store.BItem)
+    (hj : x.items[j]? = some it) :
+    getKey (Store.pageNats x) j = some (Store.keyBytes it.key) :=
+  Store.getKey_encodeBranch x hok j it hj
+
+/-- prefix `1010`, two compressed separators — `101` (shorter than the prefix: nothing stored) and `101011` — and an
+uncompressed one `1111` (the sample of `T16_rt_branch`) -/
+def sampleBranchBits : Store.BranchIn :=
+  { bbnPn := 7, pc := 2, pl := 4,
+    items := [⟨0xA0 * 2 ^ 248, 3, 11⟩, ⟨0xAC * 2 ^ 248, 6, 12⟩, ⟨0xF0 * 2 ^ 248, 4, 13⟩],
+    fill := List.replicate 32534 true }
+
+example : getKey (Store.pageNats sampleBranchBits) 1 =
+    some (Store.keyBytes (Store.BItem.key ⟨0xAC * 2 ^ 248, 6, 12⟩)) :=
+  T16_reconstruct_rt sampleBranchBits (by decide +kernel) 1 ⟨0xAC * 2 ^ 248, 6, 12⟩ rfl
+example : Store.keyBytes (0xAC * 2 ^ 248) = 0xAC :: List.replicate 31 0 := by decide +kernel
 
 end Nomt.C16
